@@ -679,3 +679,11 @@ func (s *VxState) VxEpMarked(sq Square, by Color) Bitboard {
 	}
 	return 0
 }
+
+// VxPosPhaseStm: a position of which only side to move and game phase matter (time control).
+func VxPosPhaseStm(phase int, stm Color) *Position {
+	p := &Position{}
+	p.gamePhase = phase
+	p.nextPlayer = stm
+	return p
+}
